@@ -15,13 +15,38 @@ import time
 from concurrent.futures import ThreadPoolExecutor
 
 VERIF = os.path.dirname(os.path.dirname(os.path.abspath(__file__)))
-HARNESS = os.path.join(VERIF, "harness")
-TARGET = os.path.join(VERIF, ".target")
-WORK = os.path.join(VERIF, ".work")
+# VERIF_REPO=<dir>: check a different copy of the repository (used to try seeded changes in a scratch
+# worktree while /repo itself stays untouched).  Everything mutable then lives under /verif/.alt/.
+REPO = os.environ.get("VERIF_REPO", "/repo").rstrip("/")
+ALT = REPO != "/repo"
+_ROOT = os.path.join(VERIF, ".alt") if ALT else VERIF
+HARNESS = os.path.join(_ROOT, "harness")
+TARGET = os.path.join(_ROOT, ".target")
+WORK = os.path.join(_ROOT, ".work")
+REPLAY_TARGET = os.path.join(_ROOT, ".target-replay")
+REPLAY_C16 = os.path.join(_ROOT, "replay_c16")
+
+
+def _sync_alt():
+    """mirror harness/ and replay_c16/ into .alt/ with the path dependencies pointing at REPO"""
+    for d in ("harness", "replay_c16"):
+        src, dst = os.path.join(VERIF, d), os.path.join(_ROOT, d)
+        os.makedirs(dst, exist_ok=True)
+        subprocess.run(["rsync", "-a", "--delete", "--exclude", "target", "--exclude", "src/gen", src + "/", dst + "/"], check=True)
+        os.makedirs(os.path.join(dst, "src", "gen"), exist_ok=True)
+        ct = os.path.join(dst, "Cargo.toml")
+        t = open(ct).read().replace('"/repo/crates/', '"%s/crates/' % REPO)
+        open(ct, "w").write(t)
+
+
+if ALT:
+    os.makedirs(_ROOT, exist_ok=True)
+    _sync_alt()
 KANI_HOME = os.path.expanduser("~/.kani/kani-0.68.0")
 KANI_LIB_C = os.path.join(KANI_HOME, "library/kani/kani_lib.c")
 VERIF_LIB_C = os.path.join(HARNESS, "verif_lib.c")
 VERIF_LIB_TYPED_C = os.path.join(HARNESS, "verif_lib_typed.c")
+VERIF_LIB_CAP_C = os.path.join(HARNESS, "verif_lib_cap.c")
 
 ENV = dict(os.environ, CARGO_NET_OFFLINE="true")
 ENV.pop("RUSTUP_TOOLCHAIN", None)
@@ -193,7 +218,7 @@ def prepare(h, symtab, mangled, prettymap, wd):
     """goto-cc link + kani-driver's instrumentation + T1/T2/T3.  Returns (goto path, info)."""
     os.makedirs(wd, exist_ok=True)
     g = os.path.join(wd, "h.goto")
-    lib = VERIF_LIB_TYPED_C if h.typed_heap else VERIF_LIB_C   # kani_lib.c + T3 allocation budget (+ T4)
+    lib = VERIF_LIB_CAP_C if h.alloc_cap else (VERIF_LIB_TYPED_C if h.typed_heap else VERIF_LIB_C)
     steps = [
         ["goto-cc", symtab, lib, "-o", g],
         ["goto-cc", g, "--function", mangled, "-o", g],
